@@ -271,13 +271,18 @@ func ReplayMain(hs map[string]func()) (reproduced bool, detail string) {
 		rep, _ = strconv.Atoi(s)
 	}
 	last := ""
+	wantPanic := strings.HasPrefix(rf.Msg, "panic: ")
 	for i := 0; i < rep; i++ {
 		o := RunNative(h)
 		switch {
-		case o.AssertFailed:
+		case o.AssertFailed && !wantPanic && o.Msg == rf.Msg:
 			return true, "assertion failed natively: " + o.Msg
-		case o.Panicked:
+		case o.AssertFailed:
+			last = "a different assertion failed natively: " + o.Msg
+		case o.Panicked && wantPanic:
 			return true, "panic natively: " + o.Msg
+		case o.Panicked:
+			last = "native run diverged (panic instead of the assertion failure): " + o.Msg
 		case o.AssumeFailed:
 			last = "assumption failed natively"
 		default:
